@@ -1,6 +1,6 @@
 """C12: with TLS configured, https/wss traffic is never sent in the clear (level: other; tls configuration)."""
 import re
-from core import norm, L_call, L_variant, arms, assigns_to_return, closure_arg_of, sig, const_of, AbsPaths, STR_EQ, L_opt
+from core import norm, L_call, L_variant, arms, assigns_to_return, closure_arg_of, sig, const_of, AbsPaths, STR_EQ, L_opt, VALUE_EQ
 from mir import op_place
 import fwd
 import panics
@@ -129,6 +129,94 @@ def C12_2(ctx, facts):
     pool2.waker_rule(ctx, f, "TlsConnectionFuture::poll")
 
 
+def tls_host_table(facts):
+    """Decision table of `TlsTransportWrapper::call` over what the request URI says about its host (abstract evaluation, every
+    crate-local helper / conversion impl spliced in): {scenario: set of event logs}.  Events: `connect` (the inner transport
+    is asked to connect), `new:<host>` (a TLS future is built for that host), `error:<variant>` (an error future is returned)."""
+    import inline
+    if hasattr(facts, "_tls_host_table"):
+        return facts._tls_host_table
+    fn = facts.method("client::conn::transport::tls::TlsTransportWrapper", "Service", "call")
+    OPAQUE = r"TlsConnectionFuture::(new|error)$|Transport::connect$|Uri::host$|TryFrom.*::try_from$"
+    u = inline.inline(facts, fn, 4, lambda ck, raw: "::_::" not in ck and not (re.search(OPAQUE, norm(ck)) and not facts.fns[ck].nkey.startswith("<client::conn::transport::tls")), expand=True)
+    LOG = -70
+
+    def log(st, ev):
+        l = st.get(LOG) or ("list", ())
+        st[LOG] = ("list", l[1] + (("const", ev),))
+
+    def deref(ev, st, v, hops=6):
+        while v is not None and v[0] in ("ref", "refmut", "refval") and hops > 0:
+            v = st.get(v[1]) if v[0] != "refval" else v[1]
+            hops -= 1
+        return v
+
+    def setd(st, t, v):
+        d = t["dest"]
+        if d["p"] or v is None:
+            st.pop(d["l"], None)
+        else:
+            st[d["l"]] = v
+        return True
+    tables = {}
+    for scen, hostv in (("no-host", ("variant", "None", ())), ("valid-host", ("variant", "Some", ((0, ("const", "HOST_valid")),))),
+                        ("invalid-host", ("variant", "Some", ((0, ("const", "HOST_invalid")),)))):
+        def o_host(ev, st, t, site, hostv=hostv):
+            return setd(st, t, hostv)
+
+        def o_try_from(ev, st, t, site):
+            if "ServerName" not in " ".join(t.get("targs") or []) + (t.get("resa") or "") + (t.get("decla") or ""):
+                return False
+            a = deref(ev, st, ev._eval_operand(st, site.args[0]))
+            if a == ("const", "HOST_valid"):
+                return setd(st, t, ("variant", "Ok", ((0, ("const", "SERVER_NAME")),)))
+            if a == ("const", "HOST_invalid"):
+                return setd(st, t, ("variant", "Err", ((0, ("const", "INVALID_DNS_NAME")),)))
+            return False
+
+        def o_same(ev, st, t, site):
+            a = deref(ev, st, ev._eval_operand(st, site.args[0])) if site.args else None
+            if a is None or a[0] != "const" or not str(a[1]).startswith("HOST_"):
+                return False
+            return setd(st, t, a)
+
+        def o_strip(ev, st, t, site):
+            # scenario hosts are plain names (no IPv6 brackets): nothing to strip
+            a = deref(ev, st, ev._eval_operand(st, site.args[0])) if site.args else None
+            if a is None or a[0] != "const" or not str(a[1]).startswith("HOST_"):
+                return False
+            n = norm(site.name).split("::")[-1]
+            return setd(st, t, ("variant", "None", ()) if n.startswith("strip_") else a)
+
+        def o_connect(ev, st, t, site):
+            log(st, "connect")
+            return setd(st, t, ("const", "CONNECTING"))
+
+        def o_new(ev, st, t, site):
+            h = deref(ev, st, ev._eval_operand(st, site.args[2])) if len(site.args) > 2 else None
+            log(st, "new:%s" % (h[1] if h is not None and h[0] == "const" else "?"))
+            return setd(st, t, ("const", "TLS_FUTURE"))
+
+        def o_error(ev, st, t, site):
+            e = deref(ev, st, ev._eval_operand(st, site.args[0])) if site.args else None
+            log(st, "error:%s" % (e[1] if e is not None and e[0] == "variant" else "?"))
+            return setd(st, t, ("const", "ERROR_FUTURE"))
+        raw = [(r"Uri::host$", o_host), (r"TryFrom.*::try_from$", o_try_from),
+               (r"ToOwned.*::to_owned$|str::to_owned$|ToString.*::to_string$|String.*From.*::from$|Into.*::into$|Clone.*::clone$|str::to_string$|Box.*From.*::from$|String::from$", o_same),
+               (r"str.*::(strip_prefix|strip_suffix|trim_start_matches|trim_end_matches|trim_matches|trim)$", o_strip),
+               (r"Transport::connect$", o_connect), (r"TlsConnectionFuture::new$", o_new), (r"TlsConnectionFuture::error$", o_error)]
+        try:
+            outs = AbsPaths(u, raw_oracles=raw, oracles=[VALUE_EQ]).outcomes(state={LOG: ("list", ())}, extra_keys=(LOG,))
+            tables[scen] = {tuple(e[1] for e in o[2][0][1]) if o[2][0] is not None else None for o in outs}
+        except AbsPaths.Undecided as e:
+            tables[scen] = e
+    facts._tls_host_table = (u, tables)
+    return facts._tls_host_table
+
+
+TLS_HOST_EXPECT = {"no-host": ("error:NoDomain",), "invalid-host": ("error:InvalidDomain",), "valid-host": ("connect", "new:HOST_valid")}
+
+
 def C12_3(ctx, facts):
     call = facts.unit(facts.method("client::conn::transport::tls::TlsTransportWrapper", "Service", "call"), expand=True)
     ctx.touched(call)
@@ -144,10 +232,16 @@ def C12_3(ctx, facts):
                       [r for r in rr if r.kind == "call" and r.site.matches(r"HeaderMap|Extensions|Request.*::(headers|extensions|method|version)$")]
         ctx.check(from_host and not other_parts, "TlsTransportWrapper::call|domain-is-uri-host", "the TLS domain derives from the request URI's host and from nothing else of the request",
                   "the TLS domain (SNI / certificate name) derives from %s" % sorted(map(repr, other_parts or sig(rr)))[:6], c.where())
-    for c in conns:
-        ok, w = call.guarded(c.bb, host_some)
-        ctx.check(ok, "TlsTransportWrapper::call|no-host-no-connect", "without a host no connection is attempted (NoDomain is returned first)",
-                  "the transport can be connected although the URI has no host", c.where(), call.path_desc(w))
+    u, tab = tls_host_table(facts)
+    ctx.touched(u)
+    for scen, want in TLS_HOST_EXPECT.items():
+        got = tab[scen]
+        if isinstance(got, Exception):
+            ctx.undecided("TlsTransportWrapper::call|host-table|%s" % scen, str(got))
+            continue
+        ctx.check(got == {want}, "TlsTransportWrapper::call|host-table|%s" % scen,
+                  "%s: the call does exactly %s (no connection is attempted and no TLS future is built unless the URI names a host that is a valid server name; the name offered is that host)" % (scen, list(want)),
+                  "%s: the call can do %s, expected exactly %s" % (scen, sorted(map(str, got)), list(want)), u.where())
     nod = [b for (b, i, s) in call.aggregates("client::conn::transport::TlsConnectionError", "NoDomain")]
     ctx.floor("TlsTransportWrapper::call|NoDomain", len(nod), 1, "NoDomain error")
     new = facts.unit(facts.fn("client::conn::stream::tls::TlsStream::new"))
